@@ -18,8 +18,15 @@ import (
 	"verif/harness/sim"
 )
 
-const verifRoot = "/verif"
-const harnessDir = "/verif/harness"
+// verifRoot is /verif unless check.sh runs from a snapshot of it (vp run), which sets VERIF_ROOT.
+var verifRoot = func() string {
+	if r := os.Getenv("VERIF_ROOT"); r != "" {
+		return r
+	}
+	return "/verif"
+}()
+var harnessDir = filepath.Join(verifRoot, "harness")
+
 const goBin = "go1.26.8"
 
 type desc struct {
@@ -98,6 +105,24 @@ func (b *builder) build(kind string) (string, error) {
 	}
 	out := filepath.Join(b.dir, "worker-"+kind+".test")
 	args := append([]string{"test", "-c", "-vet=off"}, binTags[kind]...)
+	if repo := os.Getenv("VERIF_REPO"); repo != "" && repo != "/repo" {
+		// background runs against a snapshot of the repository (vp run --with-repo): same harness sources, other replace target
+		mf := filepath.Join(b.dir, "go.alt.mod")
+		if _, err := os.Stat(mf); err != nil {
+			src, err := os.ReadFile(filepath.Join(harnessDir, "go.mod"))
+			if err != nil {
+				return "", err
+			}
+			alt := strings.Replace(string(src), "=> /repo", "=> "+repo, 1)
+			if err := os.WriteFile(mf, []byte(alt), 0o644); err != nil {
+				return "", err
+			}
+			if sum, err := os.ReadFile(filepath.Join(harnessDir, "go.sum")); err == nil {
+				os.WriteFile(filepath.Join(b.dir, "go.alt.sum"), sum, 0o644)
+			}
+		}
+		args = append(args, "-modfile="+mf)
+	}
 	args = append(args, "-o", out, "./worker")
 	cmd := exec.Command(goBin, args...)
 	cmd.Dir = harnessDir
